@@ -15,7 +15,7 @@ func TestSim(t *testing.T) {
 		"C23": runBptree,
 		"C24": runBptree,
 		"C25": runBptree,
-		"C26": runBptree,
+		"C26": runC26,
 	})
 	if code != 0 {
 		os.Exit(code)
